@@ -236,6 +236,48 @@ def _kf20(entry):
         ("RecursionError" in entry["what"] and "'values': '" in str(entry["case"].get("schema")))
 
 
+def _kf21(entry):
+    """C13 fixed point: the schema defines a named type with an explicit empty namespace inside a type that has a
+    namespace; its canonical full name has no dot, and re-parsing the canonical text reads it relative to the
+    enclosing namespace.  Only that shape is matched: the two texts must differ exactly by such a re-qualification."""
+    c = entry["case"]
+    raw, a, b = c.get("_raw"), c.get("_a"), c.get("_b")
+    if not (isinstance(a, str) and isinstance(b, str)):
+        return False
+    names = []
+
+    def walk(s, ns):
+        if isinstance(s, list):
+            for x in s:
+                walk(x, ns)
+        elif isinstance(s, dict):
+            t = s.get("type")
+            if t in ("record", "error", "enum", "fixed") and isinstance(s.get("name"), str):
+                nm = s["name"]
+                if "." in nm:
+                    here = nm.rsplit(".", 1)[0]
+                else:
+                    here = s.get("namespace", ns)
+                    if s.get("namespace") == "" and ns:
+                        names.append((nm, ns))
+                for f in s.get("fields", []) if t in ("record", "error") else []:
+                    walk(f.get("type"), here)
+            elif t == "array":
+                walk(s.get("items"), ns)
+            elif t == "map":
+                walk(s.get("values"), ns)
+            elif isinstance(t, (dict, list)):
+                walk(t, ns)
+
+    walk(raw, "")
+    if not names:
+        return False
+    fixed = a
+    for nm, ns in names:
+        fixed = fixed.replace('"name":"%s"' % nm, '"name":"%s.%s"' % (ns, nm))
+    return fixed == b
+
+
 BOUNDED = [
     dict(id="KF20", property="C20", clause="count_and_conformance",
          what=("generate_one/generate_many never terminate (RecursionError) for a type that contains itself through an "
@@ -272,6 +314,11 @@ BOUNDED = [
                "defaults come back as str ('\u00ff' not b'\\xff'), \"NaN\"/\"Infinity\" for float/double as the string, a record default "
                "{} without the nested fields' own defaults"),
          match=_raw_default),
+    dict(id="KF21", property="C13", clause="fixed_point",
+         what=("a named type given an explicit empty namespace inside a namespaced type has a dot-free full name in the canonical "
+               "form (as the specification's rules prescribe); re-parsing that text reads the name relative to the enclosing "
+               "namespace, so the canonical form of the canonical form differs (ns.Inner instead of Inner)"),
+         match=_kf21),
     dict(id="KF13", property="C01", clause="roundtrip", what=DEDUCTIVE[0]["what"], match=_dictnull),
     dict(id="KF13", property="C02", clause="bytes_equal_spec", what=DEDUCTIVE[0]["what"], match=_dictnull),
     dict(id="KF13", property="C04", clause="file_roundtrip", what=DEDUCTIVE[0]["what"], match=_dictnull),
